@@ -303,6 +303,26 @@ def synthServe (soa : Int) (proofs : List Int) (now : Int) : Option (Nat × Int)
     let e := synthExpiry soa proofs
     if e - now ≤ 0 then none else some (secs (e - now), e)
 
+/-! ### DNS64 (RFC 6147 §5.1.7): the synthetic AAAA's TTL -/
+
+/-- `dns64.negativeAAAATTL`: the negative TTL of the AAAA response the
+synthesis replaces — `min(SOA header TTL, SOA.MINIMUM)` of its first SOA (for
+a NODATA served from the cache the header TTL is what that entry has left),
+`none` without an SOA. -/
+def negativeAAAATTL (soa : Option (Nat × Nat)) : Option Nat :=
+  soa.map fun (hdr, mn) => if mn < hdr then mn else hdr
+
+/-- `noSOATTLCeiling`. -/
+def noSOACeiling : Nat := 600
+
+/-- the TTL loop of `responseWriter.synthesise`: start from the negative TTL
+(or the ceiling) and take the minimum with every A record's TTL. -/
+def dns64TTL (ceiling : Nat) (neg : Option Nat) (aTTLs : List Nat) : Nat :=
+  aTTLs.foldl (fun t a => if a < t then a else t) (neg.getD ceiling)
+
+/-- the CNAME/DNAME chain of the A response is capped at the synthetic TTL. -/
+def dns64ChainTTL (ttl c : Nat) : Nat := if c > ttl then ttl else c
+
 /-! ### the late-write guard as a labelled transition system
 
 One key of `internal/cache.Cache`.  Values are identified by a fresh number
